@@ -129,25 +129,139 @@ def _external(smt2, cmd, timeout_s):
             pass
 
 
-def solve_one(ob, timeout_s, seed, use_fallback=True):
-    t0 = time.time()
+def _symbols(t, cache):
+    tid = t.get_id()
+    if tid in cache:
+        return cache[tid]
+    out = set()
+    stack = [t]
+    seen = set()
+    while stack:
+        x = stack.pop()
+        xid = x.get_id()
+        if xid in seen:
+            continue
+        seen.add(xid)
+        if z3.is_quantifier(x):
+            stack.append(x.body())
+        elif z3.is_app(x):
+            d = x.decl()
+            if d.kind() == z3.Z3_OP_UNINTERPRETED:
+                out.add(d.name())
+            stack.extend(x.children())
+    cache[tid] = out
+    return out
+
+
+def _has_q(t):
+    stack = [t]
+    seen = set()
+    while stack:
+        x = stack.pop()
+        if x.get_id() in seen:
+            continue
+        seen.add(x.get_id())
+        if z3.is_quantifier(x):
+            return True
+        if z3.is_app(x):
+            stack.extend(x.children())
+    return False
+
+
+def select_hyps(hyps, goal, depth, tol=2.0):
+    """SInE-style relevance filter (sound: proving from fewer hypotheses).  All quantifier-free
+    hypotheses are kept; a quantified hypothesis is kept when one of its rarest symbols is relevant."""
+    cache = {}
+    qf, qs = [], []
+    for h in hyps:
+        (qs if _has_q(h) else qf).append(h)
+    occ = {}
+    for h in qs:
+        for sy in _symbols(h, cache):
+            occ[sy] = occ.get(sy, 0) + 1
+    relevant = set(_symbols(goal, cache))
+    for h in qf:
+        pass
+    chosen = set()
+    for _ in range(depth):
+        added = False
+        for k, h in enumerate(qs):
+            if k in chosen:
+                continue
+            syms = _symbols(h, cache)
+            if not syms:
+                chosen.add(k)
+                continue
+            m = min(occ[sy] for sy in syms)
+            trig = [sy for sy in syms if occ[sy] <= tol * m]
+            if any(sy in relevant for sy in trig):
+                chosen.add(k)
+                added = True
+        for k in chosen:
+            relevant |= _symbols(qs[k], cache)
+        # quantifier-free facts that mention relevant symbols make more symbols relevant
+        for h in qf:
+            sy = _symbols(h, cache)
+            if sy & relevant:
+                relevant |= sy
+        if not added:
+            break
+    return qf + [qs[k] for k in sorted(chosen)], len(qs)
+
+
+def _mk_solver(ob, timeout_s, seed):
     tac = getattr(ob, 'tactic', None)
     s = z3.Tactic(tac).solver() if tac else z3.Solver()
     s.set('timeout', int(timeout_s * 1000))
     if not tac:
         s.set('random_seed', seed % (2 ** 30))
+    for k, v in (getattr(ob, 'solver_opts', None) or {}).items():
+        s.set(k, v)
+    return s
+
+
+def solve_one(ob, timeout_s, seed, use_fallback=True):
+    from .contracts import spec_unfoldings
+    t0 = time.time()
+    if ob.expect != 'valid':
+        timeout_s = min(timeout_s, 20)   # vacuity guards: inconclusive is tolerated, keep them cheap
+    backend = 'z3-5.1'
+    unfold = spec_unfoldings(list(ob.hyps) + [ob.goal], fuel=getattr(ob, 'fuel', 1))
+    nq = sum(1 for h in ob.hyps if _has_q(h))
+    if ob.expect == 'valid' and nq >= 1 and not getattr(ob, 'tactic', None):
+        # phase 1: E-matching only (no model-based instantiation), as Boogie/Dafny configure z3: proofs that
+        # exist by trigger instantiation are found at once; 'unknown' here decides nothing
+        s0 = _mk_solver(ob, max(3.0, timeout_s * 0.25), seed)
+        s0.set('auto_config', False)
+        s0.set('smt.mbqi', False)
+        for h in ob.hyps:
+            s0.add(h)
+        for eq in unfold:
+            s0.add(eq)
+        s0.add(z3.Not(ob.goal))
+        if str(s0.check()) == 'unsat':
+            return Result('proved', 'z3-5.1/ematch', time.time() - t0, None, '')
+    # phase 2 (sound shortcut): prove from a relevance-selected subset of the quantified hypotheses
+    if ob.expect == 'valid' and nq >= 6:
+        for depth, share in ((2, 0.2),):
+            sel, _n = select_hyps(list(ob.hyps) + unfold, ob.goal, depth)
+            s1 = _mk_solver(ob, max(2.0, timeout_s * share), seed)
+            for h in sel:
+                s1.add(h)
+            s1.add(z3.Not(ob.goal))
+            if str(s1.check()) == 'unsat':
+                return Result('proved', f'z3-5.1/sine{depth}', time.time() - t0, None, '')
+    s = _mk_solver(ob, timeout_s, seed)
     for h in ob.hyps:
         s.add(h)
     if ob.expect == 'sat':
         s.add(ob.goal)
     else:
         s.add(z3.Not(ob.goal))
-    from .contracts import spec_unfoldings
-    for eq in spec_unfoldings(list(ob.hyps) + [ob.goal], fuel=getattr(ob, 'fuel', 1)):
+    for eq in unfold:
         s.add(eq)
     r = s.check()
     ans = str(r)
-    backend = 'z3-5.1'
     if ans == 'unknown' and use_fallback:
         remaining = max(5.0, timeout_s - (time.time() - t0))
         try:
@@ -282,13 +396,13 @@ def solve_all(obligs, jobs=16, timeout_s=60, seed=0, progress=None, use_fallback
                 finally:
                     os._exit(0)
             os.close(w)
-            running[r] = [pid, ob, time.time(), b'']
+            running[r] = [pid, ob, time.time(), b'', (hard if ob.expect == 'valid' else 45)]
         if not running:
             continue
         ready, _, _ = select.select(list(running), [], [], 0.5)
         now = time.time()
         for fd in list(running):
-            pid, ob, start, buf = running[fd]
+            pid, ob, start, buf, limit = running[fd]
             done = False
             if fd in ready:
                 chunk = os.read(fd, 1 << 16)
@@ -311,7 +425,7 @@ def solve_all(obligs, jobs=16, timeout_s=60, seed=0, progress=None, use_fallback
                 del running[fd]
                 if progress:
                     progress(ob, results[ob.id])
-            elif now - start > hard:
+            elif now - start > limit:
                 try:
                     os.kill(pid, signal.SIGKILL)
                     os.waitpid(pid, 0)
